@@ -68,6 +68,10 @@ pub struct Cfg {
     /// which constructor and which order of builder setters (see exec::build)
     #[serde(default)]
     pub recipe: u8,
+    /// a second, independent cache lives in the same process (and, for the single-task executor,
+    /// on the same thread); the cache under test must not notice
+    #[serde(default)]
+    pub decoy: bool,
 }
 
 #[derive(Serialize, Deserialize, Clone, Debug, PartialEq)]
@@ -103,6 +107,9 @@ pub enum Op {
     /// `what` (0 = close(), 1 = max_cost(), 2 = update_max_cost(v)) - operations that take no
     /// shard lock and therefore must not care about the held reference
     WhileHolding { what: u8, v: i64 },
+    /// fault (async flavour): the future of this client's next remove / wait / clear is dropped
+    /// once it has been pending more than `after` times, as a timeout or select! would do
+    CancelNext { after: u32 },
 }
 
 impl Op {
@@ -151,6 +158,7 @@ impl Op {
             Op::FaultsOff => "faults_off",
             Op::StallSelf { .. } => "stall_self",
             Op::WhileHolding { .. } => "while_holding",
+            Op::CancelNext { .. } => "cancel_next",
         }
     }
 }
